@@ -1,4 +1,4 @@
-"""C14 part: the router.  (a) SimulateSwapOperations is exactly the chain of the registered pairs' own Simulation answers (each hop offered the
+"""C14 part: the router.  (a) SimulateSwapOperations (and ReverseSimulateSwapOperations, from the last hop backwards) is exactly the chain of the registered pairs' own Simulation answers (each hop offered the
 previous hop's quoted return); (b) an executed hop (ExecuteSwapOperation, self-call) sends the registered pair of (offer, ask) a Swap of the
 router's whole balance of the offer asset, with the hop's receiver and max_spread and no belief price.  Together with the pair-level
 obligations (quote = execution) this gives 'the receiver gets what the multi-hop simulation said' under the assumption, stated in the evidence,
@@ -45,6 +45,38 @@ def simulation(ck, progr):
             got = p.value.fields[0].fields[0].payload.fields[0].fields[0]
             ck.oblige('C14.router.sim.chain.ops%d' % nops, p, got != p.extra['rets'][-1], 'the multi-hop quote is the last pair\'s quoted return, each pair having been offered the previous quoted return')
         ck.require(n >= 1, 'router simulate (%d hops): no Ok path' % nops)
+
+
+def reverse_simulation(ck, progr):
+    """ReverseSimulateSwapOperations = the registered pairs' own ReverseSimulation answers chained from the LAST hop back to the first.  Each pair
+    answers for one free symbolic ask amount q_k with a free offer amount o_k; the lookups put `queried amount == q_k` on the path, so the
+    obligation can state the chain: q_last == asked, q_k == o_{k+1}, result == o_0."""
+    RQ = PN + 'router::QueryMsg'
+    for nops in (1, 2, 3):
+        def body(it, nops=nops):
+            c = it.ctx; C15.router_world(it)
+            ask = c.sym('ask', 128)
+            qs = [c.sym('rq%d' % k, 128) for k in range(nops)]; os_ = [c.sym('ro%d' % k, 128) for k in range(nops)]
+            for k in range(nops):
+                register(it, k)
+                rs = it.mk(PN + 'pair::ReverseSimulationResponse', offer_amount=U128(os_[k]), spread_amount=U128(c.sym('rsp%d' % k, 128)), swap_fee_amount=U128(0), protocol_fee_amount=U128(0), burn_fee_amount=U128(0))
+                it.world.smart_table.append((pair_name(k), it.mkv(PQ, 'ReverseSimulation', ask_asset=it.mk(PN + 'asset::Asset', info=C15.ainfo(it, k + 1), amount=U128(qs[k]))), rs))
+            # a pair asked about any other amount does not answer (the query fails, and with it the router's query): as the native runner's querier does
+            it.world.smart_default = lambda it_, addr, msg, call: ERR(Opaque('StdError::GenericErr', Str('Querier system error')))
+            ops = [it.mkv(PN + 'router::SwapOperation', 'TerraSwap', offer_asset_info=C15.ainfo(it, k), ask_asset_info=C15.ainfo(it, k + 1)) for k in range(nops)]
+            it.extra = dict(qs=qs, os=os_, ask=ask)
+            return enter(it, RT, 'query', mk_env(it, 10**18), None, it.mkv(RQ, 'ReverseSimulateSwapOperations', ask_amount=U128(ask), operations=VecV(ops)))
+        n = 0
+        for p in ck.explore(progr, body, 'router.reverse_simulate.ops%d' % nops):
+            ck.sample(dict(entry='router.query(ReverseSimulateSwapOperations)', hops=nops, outcome=p.short()))
+            if not p.ok: continue
+            n += 1
+            got = p.value.fields[0].fields[0].payload.fields[0].fields[0]
+            qs, os_, ask = p.extra['qs'], p.extra['os'], p.extra['ask']
+            chain = [qs[nops - 1] == ask] + [qs[k] == os_[k + 1] for k in range(nops - 1)] + [zint(got) == os_[0]]
+            ck.oblige('C14.router.revsim.chain.ops%d' % nops, p, z3.Not(z3.And(*chain)),
+                      'the multi-hop reverse quote asks the last pair for the wanted amount, each earlier pair for the offer the next one needs, and reports the first pair\'s offer')
+        ck.require(n >= 1, 'router reverse simulate (%d hops): no Ok path' % nops)
 
 
 def hop_execution(ck, progr):
@@ -110,6 +142,6 @@ def hop_execution(ck, progr):
 
 def run(ck):
     progr = ck.program('terraswap_router', 'white_whale_std')
-    simulation(ck, progr); hop_execution(ck, progr)
+    simulation(ck, progr); reverse_simulation(ck, progr); hop_execution(ck, progr)
     ck.bounds['router'] = '1..3 hops over an alternating native/cw20 asset chain; pair answers arbitrary'
     ck.assumptions.append('router multi-hop: the router holds no balance of a hop asset before the operation (an executed hop swaps the router\'s whole balance, a stray balance included)')
